@@ -2,6 +2,7 @@ package main
 
 import (
 	"go/types"
+	"strings"
 
 	"golang.org/x/tools/go/ssa"
 )
@@ -156,4 +157,64 @@ func (f *Frame) restorePrivateUnwritten(li *loopInfo) {
 			vc.set(f.cur, pc.comp, store(cur, pc.ref, sel(prev, pc.ref)))
 		}
 	}
+}
+
+func elemSortOf(arraySort string) string {
+	// "(Array Int X)" -> "X"
+	s := strings.TrimPrefix(arraySort, "(Array Int ")
+	return strings.TrimSuffix(s, ")")
+}
+
+// loopStoreBases: if every write to comp inside the loop is a plain field store whose base object is computed
+// outside the loop, the terms of those bases; otherwise nil.
+func (f *Frame) loopStoreBases(li *loopInfo, comp string) []string {
+	if !strings.HasPrefix(comp, "H_") {
+		return nil
+	}
+	var bases []string
+	seen := map[string]bool{}
+	for bi := range li.blocks {
+		for _, in := range f.fn.Blocks[bi].Instrs {
+			cs, all := f.instrWrites(in)
+			if all {
+				return nil
+			}
+			writes := false
+			for _, c := range cs {
+				if c == comp {
+					writes = true
+				}
+			}
+			if !writes {
+				continue
+			}
+			st, ok := in.(*ssa.Store)
+			if !ok {
+				return nil
+			}
+			fa, ok := st.Addr.(*ssa.FieldAddr)
+			if !ok {
+				return nil
+			}
+			if _, nested := fa.X.(*ssa.FieldAddr); nested {
+				return nil
+			}
+			// the base must be defined outside the loop
+			if bi2, ok := fa.X.(ssa.Instruction); ok && li.blocks[bi2.Block().Index] {
+				return nil
+			}
+			v, ok := f.vals[fa.X]
+			if !ok {
+				if _, isParam := fa.X.(*ssa.Parameter); !isParam {
+					return nil
+				}
+				v = f.val(fa.X)
+			}
+			if !seen[v.T] {
+				seen[v.T] = true
+				bases = append(bases, v.T)
+			}
+		}
+	}
+	return bases
 }
